@@ -267,6 +267,13 @@ func (c *c09Case) finish() string {
 			bad = append(bad, fmt.Sprintf("t%dx%d", id, n))
 		}
 	}
+	// the other read accessors must agree with State() at quiescence
+	if wc := c.tp.WorkerCount(); stuck != "T" && wc != w {
+		bad = append(bad, fmt.Sprintf("WorkerCount=%d", wc))
+	}
+	if stt := c.tp.Status(); stuck != "T" && ((w == 0) != (stt == pool.StatusStopped)) {
+		bad = append(bad, "Status="+stt)
+	}
 	if atomic.LoadInt32(&c.depTimeout) != 0 {
 		bad = append(bad, "dep-timeout") // a queued task was not started while the task waiting for it ran
 	}
@@ -938,5 +945,5 @@ func c09Gen(g *Gen) {
 }
 
 func init() {
-	register("C09", &Prop{Gen: c09Gen, Run: c09Run, Timeout: 20 * time.Second, Tool: c09Tool})
+	register("C09", &Prop{Gen: c09Gen, Run: c09Run, Timeout: 12 * time.Second, Tool: c09Tool})
 }
